@@ -80,7 +80,7 @@ def sig_with_meta(rng):
     attrs = {'__module__': 'vapp.models',
              # column names beyond ASCII (Latin-1 range and above): legacy pickled rows store them as raw bytes
              'a': models.IntegerField(null=rng.random() < 0.5,
-                                      db_column=rng.choice([None, None, 'num\u00e9ro', 'stra\u00dfe_x', 'c\u4e2d'])),
+                                      db_column=rng.choice([None, None, 'num\u00e9ro', 'stra\u00dfe_x', 'c\u4e2d', 'was_json!_once'])),
              'b': models.CharField(max_length=rng.choice([10, 20]), db_index=rng.random() < 0.5),
              'Meta': type('Meta', (), meta)}
     m = type('Alpha', (models.Model,), attrs)
@@ -93,7 +93,7 @@ def sig_with_meta(rng):
         # a many-to-many field that names its table
         from django_evolution.signature import FieldSignature
         msig.add_field_sig(FieldSignature(field_name='tags', field_type=models.ManyToManyField,
-                                          field_attrs={'db_table': rng.choice(['vapp_alpha_labels', 't"x'])},
+                                          field_attrs={'db_table': rng.choice(['vapp_alpha_labels', 't"x', 'json!labels'])},
                                           related_model='vapp.Alpha'))
     if rng.random() < 0.5:
         # attribute values as mutations leave them in a signature (ChangeField(max_length=None), db_column=''
